@@ -456,6 +456,18 @@ void World::on_timer_set(KFd &k, uint64_t ns) {
 	}
 }
 
+int World::syscall_fault(const char *name) {
+	if (started || startup_fail_at <= 0) return 0;
+	if (++startup_calls != startup_fail_at) return 0;
+	probe(std::string("fault:startup_call_fails:") + name);
+	trace.tag("startup-fault"); trace.tag(name);
+	if (!strcmp(name, "socket") || !strcmp(name, "epoll_create") || !strcmp(name, "open")) return EMFILE;
+	if (!strcmp(name, "bind") || !strcmp(name, "listen")) return EADDRINUSE;
+	if (!strcmp(name, "epoll_ctl")) return ENOSPC;
+	if (!strcmp(name, "setsockopt")) return ENOPROTOOPT;
+	return EINVAL;
+}
+
 void World::on_timer_create_failed() {
 	model_version++;
 	// the request whose deadline timer cannot be created is abandoned by the daemon: it must not be taken for the owner of the next timer
